@@ -12,10 +12,12 @@ C strings are `List Char` (printable ASCII; the terminating NUL is added where `
 The store is the array `aux[0..naux)` of (key, value) pairs in array order.
 Mathlib-free, executable; the driver `PsV.Driver.C16` runs exactly these definitions.
 
-The model is of the *repaired* code (fixes/C16-1..3.diff): the reader un-doubles quotes when it strips
-the enclosing ones, `write_key` counts a quote twice in its length test, and rejects a long key that
+The model is of the *repaired* code (fixes/C16-1..3.diff and C16-5.diff): the reader un-doubles quotes when it
+strips the enclosing ones, `write_key` counts a quote twice in its length test, rejects a long key that
 leaves no room for a value (when `Gen.C16.longKeyGuard` is present; without it the `size_t`
-subtraction wraps, which is modelled as well).
+subtraction wraps, which is modelled as well), and refuses the names and characters a FITS header cannot
+hold as they are (empty key, edge blanks, `HIERARCH ` prefix, END/HISTORY/CONTINUE, anything but printable
+ASCII in a long key or in the value; each test only when the generated constants say the source has it).
 -/
 namespace PsV.Aux
 open PsV.Gen
@@ -41,6 +43,7 @@ def reserved (key : Str) : Bool :=
 /-- the exceptions of `write_key` -/
 inductive WErr where
   | reserved | shortChar | hasEq | hasLower | keyTooLong | valueTooLong
+  | edgeBlank | keyNonPrintable | valueNonPrintable
   deriving DecidableEq, Repr
 
 inductive WOut where
@@ -57,10 +60,26 @@ def WOut.accepted : WOut → Bool
     `!(isupper(c) || isdigit(c)) || c=='-' || c=='_'` (so `-` and `_` are refused, whatever the message says) -/
 def badShortChar (c : Char) : Bool := !(c.isUpper || c.isDigit) || c == '-' || c == '_'
 
+/-- `c<LO || c>HI` on a `char` holding the byte `c`: bytes >= 0x80 are out of range whatever the signedness -/
+def outOfRange (r : Option (Nat × Nat)) (c : Char) : Bool :=
+  match r with
+  | some (lo, hi) => decide (c.toNat < lo) || decide (c.toNat > hi)
+  | none => false
+
 /-- the loop over a long key: first offending character decides which exception is thrown -/
 def longKeyScan : Str → Option WErr
   | [] => none
-  | c :: cs => if c == '=' then some .hasEq else if c.isLower then some .hasLower else longKeyScan cs
+  | c :: cs =>
+    if outOfRange C16.keyCharRange c then some .keyNonPrintable else
+    if c == '=' then some .hasEq else if c.isLower then some .hasLower else longKeyScan cs
+
+/-- `keylen==1 || key[0]==' ' || key[keylen-2]==' '` -/
+def edgeBlank (key : Str) : Bool := key.isEmpty || key.head? == some ' ' || key.getLast? == some ' '
+
+/-- the second name test of `write_key`: `strncmp(lit,key,n)==0 || ... || strcmp(lit,key)==0 || ...` -/
+def writeReserved (key : Str) : Bool :=
+  (C16.writeReservedPrefixes.any fun (lit, n) => strncmpEq n (cstr lit) (cstr key)) ||
+  C16.writeReservedExact.any fun lit => lit == key
 
 def sizeMod : Nat := 2 ^ 64
 
@@ -74,6 +93,8 @@ def countQuotes (v : Str) : Nat := v.count '\''
 def validate (key val : Str) : Option WErr :=
   if reserved key then some .reserved else
   let keylen := key.length + 1
+  if C16.edgeBlankCheck && edgeBlank key then some .edgeBlank else
+  if writeReserved key then some .reserved else
   let r : Sum WErr Nat :=
     if keylen ≤ C16.shortKeylenMax then
       if key.any badShortChar then .inl .shortChar else .inr C16.shortMaxData
@@ -87,6 +108,7 @@ def validate (key val : Str) : Option WErr :=
   match r with
   | .inl e => some e
   | .inr maxdatalen =>
+    if val.any (outOfRange C16.valueCharRange) then some .valueNonPrintable else
     if val.length + countQuotes val > maxdatalen then some .valueTooLong else none
 
 def hasKey (st : Store) (key : Str) : Bool := st.any (·.1 == key)
